@@ -53,8 +53,6 @@ type hist struct {
 	evals    int
 	valID    int
 
-	avoidEmptyFlush bool
-
 	counts map[string]int
 	notes  map[string]map[string]bool
 
@@ -590,23 +588,6 @@ func (h *hist) audit(sigOverride string) bool {
 }
 
 func (h *hist) doFlush() {
-	if h.avoidEmptyFlush {
-		// Flush of an empty buffer is known (probe) to wedge this backing store; make sure the
-		// buffer holds something: CommitBatch never flushes by itself.
-		var k ukey
-		for {
-			k = h.uni[h.rng.Intn(len(h.uni))]
-			if len(k.K) <= maxK {
-				break
-			}
-		}
-		h.valID++
-		s := fmt.Sprintf("%d.pre-flush", h.valID)
-		h.doBatch([]mut{{k: k, v: value{S: s, Class: "short", Desc: strconv.Quote(s)}}})
-		if h.dead {
-			return
-		}
-	}
 	h.log(opRec{Op: "flush"})
 	h.counts["flush"]++
 	var err error
@@ -652,7 +633,7 @@ func (h *hist) doReopen() {
 	h.audit("reopen")
 }
 
-func runHistory(r *ev.Run, root, id string, sp *spec, hno int, avoidEmptyFlush bool) {
+func runHistory(r *ev.Run, root, id string, sp *spec, hno int) {
 	rng := r.Rand("history/" + id)
 	dir, err := os.MkdirTemp(root, "h")
 	if err != nil {
@@ -661,7 +642,7 @@ func runHistory(r *ev.Run, root, id string, sp *spec, hno int, avoidEmptyFlush b
 	}
 	defer os.RemoveAll(dir)
 	h := &hist{r: r, sp: sp, id: id, dir: dir, rng: rng, model: map[string]string{}, idx: map[string]int{},
-		counts: map[string]int{}, notes: map[string]map[string]bool{}, avoidEmptyFlush: avoidEmptyFlush}
+		counts: map[string]int{}, notes: map[string]map[string]bool{}}
 	h.uni = buildUniverse(rng)
 	h.rec = &caseRec{CaseID: id, Impl: sp.name}
 	for i, u := range h.uni {
